@@ -38,6 +38,12 @@ impl Identity {
     }
 }
 
+/// An address no honest node owns: the adversary's own addresses, but also e.g. another port on an
+/// honest peer's IP from which it replays that peer's datagrams.
+fn adv_addr(w: &World, a: &std::net::SocketAddr) -> bool {
+    w.node_by_addr(a).is_none()
+}
+
 fn is_foreign(w: &World, id: &ids::Id) -> bool {
     !w.attacker.own_ids.contains(id)
 }
@@ -46,7 +52,7 @@ impl Oracle for Identity {
     fn after_step(&mut self, w: &World, op: &Op) -> Option<(String, String)> {
         // what was injected into V in this step?
         let inj: Vec<&Injection> = w.step_injections().filter(|j| j.to_node == 0).collect();
-        let from_attacker_only = !inj.is_empty() && inj.iter().all(|j| w.is_attacker_addr(&j.from_addr));
+        let from_attacker_only = !inj.is_empty() && inj.iter().all(|j| adv_addr(w, &j.from_addr));
         // steps in which V only processed a forged handshake presented from an honest peer's address
         let spoofed_only = !inj.is_empty() && inj.iter().all(|j| j.manipulation.as_deref() == Some("forged-handshake-spoofed"));
         if spoofed_only {
@@ -129,19 +135,19 @@ impl Oracle for Identity {
         self.seen_events = w.events.len();
         for e in evs.iter().filter(|e| e.node == 0) {
             match &e.out {
-                HandlerOut::Request(a, r) if w.is_attacker_addr(&a.socket_addr) && is_foreign(w, &a.node_id.raw()) => {
+                HandlerOut::Request(a, r) if adv_addr(w, &a.socket_addr) && is_foreign(w, &a.node_id.raw()) => {
                     return Some((
                         "identity/request-attributed-to-impersonated-id".into(),
                         format!("V delivered request {r} as coming from node {} at attacker address {} (op {op:?})", a.node_id, a.socket_addr),
                     ));
                 }
-                HandlerOut::Response(a, r) if w.is_attacker_addr(&a.socket_addr) && is_foreign(w, &a.node_id.raw()) => {
+                HandlerOut::Response(a, r) if adv_addr(w, &a.socket_addr) && is_foreign(w, &a.node_id.raw()) => {
                     return Some((
                         "identity/response-attributed-to-impersonated-id".into(),
                         format!("V delivered response {r} as coming from node {} at attacker address {} (op {op:?})", a.node_id, a.socket_addr),
                     ));
                 }
-                HandlerOut::Established(enr, sock, dir) if w.is_attacker_addr(sock) && is_foreign(w, &enr.node_id().raw()) => {
+                HandlerOut::Established(enr, sock, dir) if adv_addr(w, sock) && is_foreign(w, &enr.node_id().raw()) => {
                     // outbound: V reports Established(Outgoing) when it sends its own handshake to a
                     // contact with a known record (protocol design, see DESIGN.md scope note)
                     let outbound_by_design = inj_kind == Some(1);
@@ -161,7 +167,7 @@ impl Oracle for Identity {
                         format!("V reported node {} established at {sock} ({dir:?}), but the party there handshook as node {} (op {op:?})", enr.node_id(), ids::node_id(&w.nodes[j].id)),
                     ));
                 }
-                HandlerOut::UnverifiableEnr { node_id, socket, .. } if w.is_attacker_addr(socket) && is_foreign(w, &node_id.raw()) => {
+                HandlerOut::UnverifiableEnr { node_id, socket, .. } if adv_addr(w, socket) && is_foreign(w, &node_id.raw()) => {
                     return Some((
                         "identity/unverifiable-enr-reported-for-impersonated-id".into(),
                         format!("V reported UnverifiableEnr for node {node_id} because of traffic from attacker address {socket} (op {op:?}); the service removes that node from its table"),
@@ -170,7 +176,7 @@ impl Oracle for Identity {
                 HandlerOut::RequestFailed(id, err) if from_attacker_only && !matches!(err, RequestError::Timeout) => {
                     // a request towards an honest peer failed because of attacker traffic?
                     if let Some(s) = w.submitted.iter().find(|s| s.from == 0 && &s.id == id) {
-                        if !w.is_attacker_addr(&s.to_addr) {
+                        if !adv_addr(w, &s.to_addr) {
                             return Some((
                                 "identity/honest-request-failed-by-attacker-traffic".into(),
                                 format!("V's request {id} to honest peer {} failed with {err:?} in a step that only processed attacker traffic (op {op:?})", s.to_addr),
@@ -185,7 +191,7 @@ impl Oracle for Identity {
         // 3: inbound acceptance creates / re-keys a session keyed to a foreign id at an attacker address
         if inj_kind == Some(2) && from_attacker_only {
             for s in &w.snaps[0].sessions {
-                if w.is_attacker_addr(&s.addr.socket_addr) && is_foreign(w, &s.addr.node_id.raw()) {
+                if adv_addr(w, &s.addr.socket_addr) && is_foreign(w, &s.addr.node_id.raw()) {
                     let before = w.prev_snaps[0].sessions.iter().find(|p| p.addr == s.addr);
                     if before.map(|b| b.keys != s.keys).unwrap_or(true) {
                         return Some((
@@ -198,11 +204,11 @@ impl Oracle for Identity {
         }
         // V encrypts towards an attacker address under a key the attacker can derive
         for d in &w.log[self.seen_log..] {
-            if d.from_node == Some(0) && is_foreign(w, &d.to_id.raw()) && (w.is_attacker_addr(&d.to_addr) || w.attacker.derived.iter().any(|(xid, z, _, _)| *z == 255 && *xid == d.to_id.raw())) {
+            if d.from_node == Some(0) && is_foreign(w, &d.to_id.raw()) && (adv_addr(w, &d.to_addr) || w.attacker.derived.iter().any(|(xid, z, _, _)| *z == 255 && *xid == d.to_id.raw())) {
                 if let Some((p, aad)) = &d.decoded {
                     if !matches!(p.kind, PacketKind::WhoAreYou { .. }) {
                         for (xid, _, ik, rk) in &w.attacker.derived {
-                            if !w.is_attacker_addr(&d.to_addr) && *xid != d.to_id.raw() {
+                            if !adv_addr(w, &d.to_addr) && *xid != d.to_id.raw() {
                                 continue;
                             }
                             for k in [ik, rk] {
@@ -223,7 +229,7 @@ impl Oracle for Identity {
         // 4: honest sessions untouched by attacker traffic
         if from_attacker_only {
             for before in &w.prev_snaps[0].sessions {
-                if w.is_attacker_addr(&before.addr.socket_addr) {
+                if adv_addr(w, &before.addr.socket_addr) {
                     continue;
                 }
                 match w.snaps[0].sessions.iter().find(|s| s.addr == before.addr) {
